@@ -645,6 +645,7 @@ struct WkdScenario : Scenario {
         size_t per = kind == 0 ? enc_size(1, comp) : enc_size(1, comp) + 4;
         if (kind == 0 || kind == 2) for (int m = 1; m <= 3; m++) for (int fill : {0, 0xFF, 0xC0, 0x40}) p.ops.push_back({"HOP", {kind, 0, comp, checked}, {strf("ext:%zu:%d", per * (size_t) m, fill)}});
         for (size_t off = 0; off < L.total; off += (size_t) (7 * stride)) p.ops.push_back({"HOP", {kind, 0, comp, checked}, {strf("flip:%zu:%d", off, (int) r.below(8))}});
+        if (kind == 2) for (int j = 0; j < 6; j++) p.ops.push_back({"HOP", {kind, 0, comp, checked}, {strf("wideidx:%d", j * 7 + 1)}});
         p.ops.push_back({"HOP", {kind, 0, comp, checked}, {"flip:0:0"}}); p.ops.push_back({"HOP", {kind, 0, comp, checked}, {"set:0:2"}}); p.ops.push_back({"HOP", {kind, 0, comp, checked}, {"set:0:255"}});
         for (size_t cut = 1; cut < L.total; cut += (size_t) (13 * stride)) p.ops.push_back({"HOP", {kind, 0, comp, checked}, {strf("torn:%zu", cut)}});
         for (int j = 0; j < 24; j++) p.ops.push_back({"HOP", {kind, 0, comp, checked}, {strf("junk:%d:%llu", (int) (j < 8 ? r.below(16) : r.below(4096)), (unsigned long long) (r.next() >> 8))}});
